@@ -81,6 +81,58 @@ def file_aliases(ctx):
         break
 
 
+def name_table(M, rep, R8):
+    from nixsa.dtable import TermEval, NOTHING, Unknown
+    from nixsa.px import explore
+    um = M.modules.get("nixio.util.util")
+    f = um.funcs.get("check_entity_name") if um else None
+    if f is None:
+        rep.bad(R8, "util.check_entity_name", "required mechanism not found")
+        return
+    c = Ctx(M, coarse=False)
+    c.cfg.compose = False
+    c.cfg.opaque_modules = set()
+    paths = explore(c.cfg, f, None, None, 2000)
+    legal = ["a", "data array 1", "\u00e4\u00f6\u00fc \u00b5V", "x" * 300, ".raw", "..", ".5 mV step", "a.b", "0" * 32,
+             "4a6f9c1e-8f43-4d2a-9c0e-3b8e7a1d2f55", " lead", "trail ", "a\\b", "-", "~tmp", "#1", "name:with:colons"]
+    illegal = ["", "a/b", "/", "/abs", "trailing/"]
+    for nm, want in [(x, True) for x in legal] + [(x, False) for x in illegal]:
+        def leaf(t, nm=nm):
+            if t == ("param", "name"):
+                return nm
+            return NOTHING
+
+        def atomfn(a):
+            if a[0] == "isinst":
+                return "bytes" not in a[2] if "str" not in a[2] else True
+            return NOTHING
+        te = TermEval(leaf, atomfn=atomfn)
+        hit = []
+        for p in paths:
+            ok = True
+            for a, v in p.decisions:
+                try:
+                    r = te.atom(a)
+                except Unknown as e:
+                    raise AnalysisError("C03.R8: the name check depends on an unmodelled condition %s (%s)" % (show(a)[:120], e))
+                except (TypeError, AttributeError, IndexError):
+                    ok = False
+                    break
+                if r != v:
+                    ok = False
+                    break
+            if ok:
+                hit.append(p)
+        key = "name %r" % (nm if len(nm) < 40 else nm[:12] + "...(%d chars)" % len(nm))
+        if len(hit) != 1:
+            rep.bad(R8, key, "%d rows of the name check's decision table apply" % len(hit), site=f.file)
+            continue
+        got = hit[0].normal
+        rep.check(R8, key, got == want, "the name %r is %s; it is %s" % (
+            nm[:60], "accepted" if got else "refused (%s)" % hit[0].terminal[1].cls, "a legal name (non-empty, no slash) and must be accepted"
+            if want else "not a legal name and must be refused"), site=f.file + ":%d" % f.node.lineno)
+
+
 def run(M, rep, tier, only=None):
     ctx = Ctx(M)
     R1 = rep.rule("C03.R1", "a name-only duplicate test on the destination group precedes every creation", floor=13,
@@ -101,6 +153,9 @@ def run(M, rep, tier, only=None):
     n6 = stateless.run(M, rep, R6, only_classes=set(CONTAINER_CLASSES) | {"H5Group"})
     if not n6:
         rep.ok(R6, "containers", "no instance attribute is written outside the constructors")
+    R8 = rep.rule("C03.R8", "every legal name (non-empty, no slash) passes the name check; empty names and names with a slash do not", floor=10,
+                  technique="decision-table extraction of the name validation, evaluated on representative names")
+    name_table(M, rep, R8)
     R7 = rep.rule("C03.R7", "membership of an entity agrees with lookup by id (decided by the entity's id, not by its name alone)", floor=1,
                   technique="dependency of every True-answering path on the item's id (shared with C05.R2)")
     from .c05 import container_identity
